@@ -12,7 +12,7 @@ claimed = {
  "C02": ("Same steps; every ledger cell non-negative afterwards, volume <= max supply, live pool reserves > 0.", "§0a.2, §4 C02", ""),
  "C03": ("Symbolic RunTx (CheckTx then DeliverTx) with a cell-by-cell frame condition on rejection and nonce+1 on acceptance.", "§0a.2, §4 C03", ""),
  "C04": ("Symbolic RunTx: acceptance implies nonce = last+1 and the network chain id; replay harnesses deliver the same bytes twice.", "§0a.2, §4 C04", ""),
- "C05": ("Symbolic RunTx: on acceptance no account other than the signer is debited; owner gates per type; multisig weights/duplicates.", "§0a.2, §4 C05", ""),
+ "C05": ("Symbolic RunTx: on acceptance no account other than the signer is debited; owner gates per type (coins, candidates, commission, orders, votes, multisig creation/edit); multisig weights/duplicates/nonce; a failed check redemption charges the issuer as the property states.", "§0a.2, §4 C05", "Transaction types covered are those listed in evidence.harnesses."),
  "C06": ("Relational harness: CheckTx on a CheckState then DeliverTx on the same symbolic state; verdicts must agree and CheckTx must not mutate.", "§0a.2, §4 C06", ""),
  "C07": ("Every feasible panic path of every transaction/block harness is a violation, replayed natively before being reported.", "§0a.2, §4 C07", "Byte-level decoder layer is covered only as far as listed in evidence."),
  "C08": ("Map-iteration order as a nondeterministic choice: two State.Commit calls over a populated universe are executed under every iteration order of every map range met (one deviating site per path); the ordered database writes must be identical. A difference is confirmed natively by repeated runs showing differing IAVL root hashes.", "§0a.2, §4 C08", "PARTIAL: map-order part of the property only, concrete data; goroutine scheduling, GOMAXPROCS/GOGC, separate processes are not exercised (block execution starts no goroutines)."),
@@ -20,14 +20,14 @@ claimed = {
  "C10": ("The app-DB write sequence of the real Blockchain.Commit is executed against a write-budget store for every crash point; a restarted AppDB/Info() over the surviving prefix is checked against the recovery contract (no mixed height/hash pair; a reported height carries its own emission and price; h-1 keeps its own).", "§0a.2, §4 C10", "PARTIAL: application-level write order only; IAVL crash atomicity, LevelDB durability and the Tendermint handshake are by contract. Two open findings (F7, F8)."),
  "C11": ("One populated state (every module, symbolic amounts, one used-check hash with a symbolic first byte) is committed, exported, validated with AppState.Verify, imported into an empty chain and exported again; the two exports must be equal section by section and every module getter must answer alike on both chains.", "§0a.2, §4 C11", "PARTIAL: one populated universe at one height, not every history; stakes, pools and orders concrete; amino JSON of the genesis not executed. One defect found and fixed (F9: halt votes were not imported)."),
  "C12": ("Formula layer of the four bancor functions executed symbolically with big.Float over exact reals and math.Pow as a constrained uninterpreted function: results non-negative, sale return <= reserve, zero in -> zero out, selling the whole supply returns the reserve, crr=100 branches equal the exact integer formulas, and the exponent passed to Pow is the bonding-curve exponent.", "§0a.2, §4 C12", "PARTIAL: the numerical accuracy of math/pow.go, exp.go, log.go and the 100-bit rounding (bounded relative error, monotonicity under rounding, buy-then-sell) is outside; it cannot be encoded within reach of the solvers."),
- "C13": ("Bounded symbolic execution of the real swapV2.go kernels from an arbitrary symbolic pool; assertions are SMT queries over unbounded integers.", "§0a.2, §4 C13", "Shape bound: one pool, one operation (inductive step)."),
- "C14": ("The real order-book code (PairV2.SellWithOrders, calculateBuyForSellWithOrders, updateOrders, removeLimitOrder, ExpireOrders) inside a full State over a concrete book of up to 3 resting orders and a symbolic taker amount: each order is filled at its own price or better for its owner up to one unit, a later order (worse price, or same price and higher id) is touched only after the earlier one is consumed, a partial fill keeps the price (0 <= s*B - b*S < B), no open order is left below the minimum volume, a closing remainder is refunded, and cancelling or expiring in the block of the fill returns exactly the unfilled amount, once.", "§0a.2, §4 C14", "PARTIAL: books of at most 3 concrete orders; paged on-disk index and multi-block interleavings outside; owner-only cancellation (transaction gate) not in this harness."),
+ "C13": ("Bounded symbolic execution of the real swapV2.go kernels from an arbitrary symbolic pool (sell/buy keep the reserve product, CheckSwap guards Swap, mint-then-burn returns no more than was put in, burn pays at most the share, creation locks the minimum liquidity); assertions are SMT queries over unbounded integers. Order book on both sides (SellWithOrders, BuyWithOrders over a concrete book and a symbolic amount): product non-decreasing, neither reserve emptied, every coin-0 unit accounted for. Transaction level: CreateSwapPool, AddLiquidity, RemoveLiquidity through RunTx (amounts exact, limits honoured, tags equal balance changes).", "§0a.2, §4 C13", "Shape bound: one pool, one operation (inductive step). One defect found and fixed (F10: liquidity transactions validated on a wrong copy of the pool)."),
+ "C14": ("The real order-book code (PairV2.SellWithOrders, calculateBuyForSellWithOrders, updateOrders, removeLimitOrder, ExpireOrders) inside a full State over a concrete book of up to 3 resting orders and a symbolic taker amount: each order is filled at its own price or better for its owner up to one unit, a later order (worse price, or same price and higher id) is touched only after the earlier one is consumed, a partial fill keeps the price (0 <= s*B - b*S < B), no open order is left below the minimum volume, a closing remainder is refunded, and cancelling or expiring in the block of the fill returns exactly the unfilled amount, once.", "§0a.2, §4 C14", "PARTIAL: books of at most 3 concrete orders; paged on-disk index and multi-block interleavings outside; owner-only cancellation, exact refund and only-once are decided at transaction level by RemoveOrder_Deliver; AddLimitOrder as a transaction is not harnessed."),
  "C15": ("Symbolic RunTx of SellCoin / BuyCoin / SellAllCoin (bancor coin <-> base) and SellSwapPool / BuySwapPool / SellAllSwapPool (token <-> base through one pool), gas coin = base or the traded coin: on acceptance the credit is at least the requested minimum, the debit at most the requested maximum, exactly the requested amount is sold / bought, a sell-all leaves nothing, and the tx.return / tx.sell_amount / tx.commission_amount tags equal the balance changes applied.", "§0a.2, §4 C15", "PARTIAL: two-coin routes only (3..5-coin routes outside the bound); BuySwapPool with concrete amounts to buy."),
  "C16": ("BeginBlock maturity loop from symbolic frozen funds (plain unbond, pending move, later heights, other candidate) with and without byzantine evidence: matured unbonds reach the owner balance, moves reach the target candidate and never the balance, nothing at other heights is released. Transaction side (symbolic RunTx of Unbond, MoveStake, Lock, Delegate, Unbond under LockStake): unbonded coins are frozen for exactly the unbond period, moved coins for exactly the move period with their target, only towards an existing other candidate, never to the balance; locked coins are frozen until exactly their due block, which must be in the future; a stake locked by LockStake cannot be unbonded.", "§0a.2 C16", "Base-coin stakes; Lock due block from four concrete heights. Open finding F5b (move target deleted before maturity) is reported by C07."),
  "C17": ("The real RecalculateStakesV2 / DeleteCandidate / GetNewCandidates over 100..102 concrete candidates plus one with a symbolic stake (every rank and tie): the top 100 by (stake desc, id asc) are kept, the rest removed with every stake frozen in full for the unbond period, a current validator is never removed, the new set is the top online candidates with >= 1000 BIP in stake order; a candidate with 1000 full slots and a symbolic incoming delegation: the newcomer displaces the smallest stake only if not smaller, the loser goes to the waitlist in full; the real updateValidators over 3 symbolic stakes: power = max(1, floor(stake*10^8/total)).", "§0a.2, §4 C17", "PARTIAL: base-coin stakes only; histories of punishments / status switches between updates are outside."),
  "C18": ("BeginBlock byzantine branch over symbolic stakes and unbonding funds: every stake and every fund in the unbond window loses v - floor(95v/100), the rest is frozen for one unbond period, the validator is dropped, total-slashed grows by the sum; other candidates untouched. Absence window: from a 10-miss pattern plus 4 arbitrary bits, more than 12 misses of 24 switch the validator off, jail its candidate until exactly height + jail period and reset the window, fewer change nothing else. SetCandidateOn/Off by RunTx: only owner/control, never on while jailed (jail height symbolic).", "§0a.2 C18", "Absence window explored over 16 windows around the threshold, not all 2^24; grace periods not in force."),
- "C19": ("EndBlock accumulation over every present/absent/missing status pattern and symbolic stakes, reward, fees: present validators accrue floor(pot*stake/total), others nothing, accrued + remainder = pot; payout block: paid never exceeds accrued.", "§0a.2, §4 C19", "Locked-stake (x3) bonus branch of PayRewardsV5Fix is outside the registered bound."),
- "C20": ("isApplicationHalted / isUpdateCommissionsBlockV2 / isUpdateNetworkBlockV2 over symbolic validator stakes and every vote pattern against the integer predicate 3*voted > 2*total.", "§0a.2, §4 C20", "big.Float over exact reals in the quick tier; counterexamples are replayed natively with real big.Float."),
+ "C19": ("EndBlock accumulation over every present/absent/missing status pattern and symbolic stakes, reward, fees: present validators accrue floor(pot*stake/total), others nothing, accrued + remainder = pot; payout block: paid never exceeds accrued; two consecutive blocks through the real BeginBlock: attendance recorded in one block does not carry over to the next.", "§0a.2, §4 C19", "Locked-stake (x3) bonus branch of PayRewardsV5Fix is outside the registered bound."),
+ "C20": ("isApplicationHalted / isUpdateCommissionsBlockV2 / isUpdateNetworkBlockV2 over symbolic validator stakes and every vote pattern against the integer predicate 3*voted > 2*total. Vote transactions (SetHaltBlock, VoteUpdate) through RunTx: only the candidate owner, not for a past height, once per validator.", "§0a.2, §4 C20", "big.Float over exact reals in the quick tier; counterexamples are replayed natively with real big.Float."),
  "C28": ("EndBlock emission bookkeeping: below the cap emission grows by exactly the safe reward and the part validators do not get is credited to the zero address; at the cap nothing is minted. BeginBlock update window over chosen heights, hours and gaps with symbolic emission: the reward is recomputed exactly on the first block of a period between 12:00 and 14:59 more than 3 hours after the previous update, and is zero at the cap. AppDB.UpdatePriceFix from a stored price with one symbolic reserve: a drop of -10% or worse (integer predicate 100*r1*R0 < 91*r0*R1) zeroes the validators share, recovery by 10 BIP per update up to the price level, otherwise the price-derived reward (Pow uninterpreted).", "§0a.2 C28", "Block times concrete; previous reserves concrete; the accuracy of 350*p^(1/4) is outside (C12 limits)."),
  "C21": ("Symbolic RunTx of RedeemCheck with abstract check cryptography (issuer by signer table, lock/proof as abstract signatures; natively real secp256k1): acceptance implies due block not passed, network id, proof made with the lock's password for the redeemer's address, gas coin and gas price of the check, check unused; exactly coin and value move from issuer to redeemer, the fee leaves the issuer in the check's gas coin, third parties untouched; the check is marked used and a second redemption is rejected; a used check survives export/import for every first hash byte.", "§0a.2, §4 C21", "Pool-priced gas coins are outside the registered bound."),
  "C22": ("Symbolic RunTx of MintToken, CreateSwapPool, CreateCoin, CreateToken, RecreateCoin, RecreateToken, EditCoinOwner by the ticker owner or another account: a created ticker was free, every new coin / token / pool token gets coinsCount+1, a rejected transaction uses no id, recreation only by the owner of an existing ticker keeps the old coin under version 1 reachable by (symbol, version) and resolves the active ticker to the new id, owner change only by the owner, mint only by the owner of a mintable token within max supply, pool tokens have no owner.", "§0a.2 C22", "One recreation per ticker (repeated recreation / version numbering beyond 1 outside); burn not harnessed."),
